@@ -4,8 +4,9 @@ import random
 STATES = {"str": ["q0", "q1", "q2", "q3"], "int": [0, 1, 2, 3],
           "reserved": ["#STARTTOFINAL#", "#ENDTOFINAL#", "#STARTEMPTYS#", "#ENDEMPTYS#0"],
           "tuple": [("p", 0), ("p", 1), (0, 0), (1,)]}
-STACK = {"str": ["Z", "X", "Y"], "int": [0, 1, 2], "reserved": ["#BOTTOMTOFINAL#", "#BOTTOMEMPTYS#", "#BOTTOMEMPTYS#0"],
-         "tuple": ["Z", "X", "Y"]}
+STACK = {"str": ["Z", "X", "Y", "W"], "int": [0, 1, 2, 3],
+         "reserved": ["#BOTTOMTOFINAL#", "#BOTTOMEMPTYS#", "#BOTTOMEMPTYS#0", "#BOTTOMTOFINAL#0"],
+         "tuple": ["Z", "X", "Y", "W"]}
 INPUTS = ["a", "b"]
 VCS = ["str", "str", "int", "reserved", "tuple", "inject"]
 
@@ -17,7 +18,7 @@ def random_case(rng, max_states=3, max_stack=2, max_trans=6, max_push=3, vcs=Non
     trans = []
     for _ in range(rng.randint(1, max_trans)):
         a = -1 if rng.random() < 0.3 else rng.randrange(k)
-        push = [rng.randrange(m) for _ in range(rng.choice([0, 0, 1, 1, 2, 2, 3][:2 * max_push + 1]))]
+        push = [rng.randrange(m) for _ in range(rng.choice([0, 0, 1, 1, 2, 2, 3, 3, 3][:2 * max_push + (3 if max_push >= 3 else 1)]))]
         t = [rng.randrange(n), a, rng.randrange(m), rng.randrange(n), push]
         if t not in trans:
             trans.append(t)
@@ -25,6 +26,35 @@ def random_case(rng, max_states=3, max_stack=2, max_trans=6, max_push=3, vcs=Non
     c = {"n": n, "m": m, "k": k, "trans": trans, "start": 0 if rng.random() < 0.8 else rng.randrange(n),
          "zstart": 0, "finals": finals, "vc": rng.choice(vcs or VCS)}
     if rng.random() < 0.5:
+        c["shuffle"] = rng.randrange(1 << 30)
+    if c["vc"] == "inject":
+        c["perm"] = rng.sample(range(4), 4)
+        c["zperm"] = rng.sample(range(4), 4)
+    return c
+
+
+def push_chain_case(rng, vcs=None):
+    """one transition pushes three (or two) symbols at once; each of them is popped in a state of its own choice, so
+    the conversion to a grammar has to guess the intermediate states of the push correctly"""
+    n = rng.randint(2, 4)
+    depth = rng.choice([2, 3, 3, 3])
+    m = depth + 1
+    k = 2
+    ent = rng.randrange(n)
+    trans = [[0, -1 if rng.random() < 0.6 else rng.randrange(k), 0, ent, list(range(1, depth + 1))]]
+    cur = ent
+    for sym in range(1, depth + 1):
+        nxt = rng.randrange(n)
+        trans.append([cur, -1 if rng.random() < 0.2 else rng.randrange(k), sym, nxt, []])
+        cur = nxt
+    for _ in range(rng.randint(0, 2)):
+        t = [rng.randrange(n), rng.randrange(k), rng.randrange(m), rng.randrange(n),
+             [rng.randrange(m) for _ in range(rng.choice([0, 0, 1]))]]
+        if t not in trans:
+            trans.append(t)
+    c = {"n": n, "m": m, "k": k, "trans": trans, "start": 0, "zstart": 0,
+         "finals": [s for s in range(n) if rng.random() < 0.3], "vc": rng.choice(vcs or VCS)}
+    if rng.random() < 0.6:
         c["shuffle"] = rng.randrange(1 << 30)
     if c["vc"] == "inject":
         c["perm"] = rng.sample(range(4), 4)
